@@ -206,6 +206,7 @@ def run(chk):
         # the shortest encoding the observer can decode unless a huge gap forces four bytes
         pl = rng.choice([1, 2, 4])
         pm = dict(c_cid_len=rng.choice([0, 8]), s_cid_len=rng.choice([4, 8]), pnlen={"c": pl, "s": rng.choice([1, 2, 4])}, pn_gaps=rng.choice(["big", "huge", "huge"]),
+                  init_token=rng.choice([0, 0, 5, 37, 300]), len_width=rng.choice([None, 2, 4]),
                   pn_start={"c": {"a": rng.choice(starts), "i": rng.choice([0, 0, 0x58CC0473, (1 << 16) - 1, (1 << 32) - 2]), "h": rng.choice([0, 70000])},
                             "s": {"a": rng.choice(starts), "i": rng.choice([0, 0, 0x1C904400]), "h": rng.choice([0, 255])}})
         ejobs.append((b, rng.randrange(1 << 30), pm, []))
